@@ -107,6 +107,9 @@ def build_population(rng):
             if rng.random() < 0.5:
                 d["first_seen"] = rng.choice(forms)
             items.append(d)
+        if k == 0 and rng.random() < 0.6:
+            # ... and one without `modified` (a flat file in the same type directory), stored and asked for first
+            items.insert(0, {"type": "x-unregistered", "id": g.new_id("x-unregistered"), "name": "unversioned", "labels": ["l1"], "stixmon_first": True})
     return items
 
 
@@ -315,6 +318,14 @@ def make_stores(rng, objs, tmp):
         if model.add(j):
             mem.add(o)
             fs.add(o)
+            if isinstance(o, dict) and o.get("stixmon_first"):
+                # history: the sources are asked while the type directory holds nothing but this flat file
+                for src in (mem, fs):
+                    try:
+                        src.query([stix2.Filter("type", "=", o["type"])])
+                        src.get(o["id"])
+                    except Exception:
+                        pass
     return mem, fs, model
 
 
